@@ -111,7 +111,7 @@ impl QueryVisitor {
             }
         }
         QueryNode::AttributeTerm {
-            attr: String::from(default_field),
+            attr: unescape(default_field),
             value: terms.join(" "),
         }
     }
